@@ -154,6 +154,40 @@ def join_leave_step(a1: bool, a2: bool, ao: bool, b1: bool, b2: bool, bo: bool, 
     return hx.end(_check_i3(m, residents) is True)
 
 
+def rejected_join(a1: bool, n1: bool, n2: bool, dup: bool, x: int, y: int, z: int) -> bool:
+    """
+    post: _
+    """
+    # a join that is rejected (identifier taken / position outside a spatial world) must leave the listings at I3
+    hx.begin()
+    kind = hx.P['world']
+    m = Model()
+    env = _world(m, kind)
+    residents = [_mk_agent(m, "r0", a1, False, False), _mk_agent(m, "r1", True, True, False)]
+    if kind != 'plain':
+        for a in residents:
+            a.add_component(Env.PositionComponent(a, m, 0, 0, 0))
+    _install(m, env, residents)
+    new = _mk_agent(m, "r1" if dup else "new", n1, n2, False)
+    try:
+        if kind == 'plain':
+            env.add_agent(new)
+        else:
+            env.add_agent(new, x, y, z)
+        joined = True
+    except Exception:
+        joined = False
+    if joined:
+        if new.id not in env.agents or env.agents[new.id] is not new:
+            return hx.end(hx.fail("join reported success but the agent is not resident"))
+        residents = residents + [new]
+    else:
+        hx.reach('rejected')
+        if not hx.same_seq(list(env.agents.values()), residents):
+            return hx.end(hx.fail("rejected join changed the residents", got=list(env.agents)))
+    return hx.end(_check_i3(m, residents, "after a %s join" % ("successful" if joined else "rejected")) is True)
+
+
 # ------------------------------------------------------------------------------------------------ histories
 
 def _apply(m, env, agents, resident, op, ai, ti):
@@ -537,6 +571,8 @@ def obligations(tier):
         X("spatial", join_leave_step, parts=sp_parts, labels=("join_with_components", "leave_with_components"),
           labels_for=lambda p: ("join_with_components",) if p["op"] == "join" else ("leave_with_components",),
           timeout=600, encoded=senc, bounds={"residents": "2", "worlds": ",".join(sp_worlds)}),
+        X("rejected_join", rejected_join, parts=[{"world": w} for w in ["plain"] + sp_worlds], labels=("rejected",), timeout=600,
+          encoded=senc, bounds={"residents": 2, "position": "all ints", "cause": "duplicate id / out of bounds on any axis and side"}),
         X("history", history, parts=_hist_parts(k, ["plain"]), labels=tuple(_LABEL_OF.values()), labels_for=_hist_labels,
           timeout=300, group=6, encoded=enc,
           bounds={"operations": "<= %d over {join, leave, offline attach/detach, resident register (order-preserving), resident deregister}" % k}),
